@@ -200,6 +200,29 @@ func C20Structs() {
 		sym.Assert(ok, "nested/index-key")
 		sym.Assert(sym.And(e.A == int32(in.Index["k"].A), e.B == uint64(in.Index["k"].B)), "nested/index-value")
 	}
+	// members whose names differ only by an underscore or a digit position are different members
+	type srcU struct {
+		Id_ int16
+		Id  int16
+		X_1 uint8
+		X1  uint8
+		X11 uint8
+	}
+	type dstU struct {
+		X11 uint32
+		X1  uint32
+		X_1 uint32
+		Id  int64
+		Id_ int64
+	}
+	su := srcU{Id_: sym.I16("id_"), Id: sym.I16("id"), X_1: sym.U8("x_1"), X1: sym.U8("x1"), X11: sym.U8("x11")}
+	var du dstU
+	sym.Assert(ConvertFrom(&du, su) == nil, "underscore-members/ok")
+	sym.Assert(sym.And(du.Id == int64(su.Id), du.Id_ == int64(su.Id_)), "underscore-members/id")
+	sym.Assert(sym.And(sym.And(du.X1 == uint32(su.X1), du.X_1 == uint32(su.X_1)), du.X11 == uint32(su.X11)), "underscore-members/x")
+	var bu srcU
+	sym.Assert(ConvertFrom(&bu, du) == nil, "underscore-members/back-ok")
+	sym.Assert(sym.And(sym.And(bu.Id == su.Id, bu.Id_ == su.Id_), sym.And(bu.X1 == su.X1, bu.X_1 == su.X_1)), "underscore-members/roundtrip")
 	sym.Reach("structs-done")
 }
 
@@ -214,7 +237,28 @@ func C20Incompatible() {
 		mp map[string]int32
 		st zzInner
 	)
-	switch sym.Choose("pair", 21) {
+	switch sym.Choose("pair", 27) {
+	case 21:
+		// destination kinds the conversion does not support at all are refused, never left at their zero value
+		var d [2]int32
+		sym.Assert(ConvertFrom(&d, []int32{sym.I32("x"), sym.I32("y")}) != nil, "slice->array/refused")
+	case 22:
+		var d interface{}
+		sym.Assert(ConvertFrom(&d, sym.I32("x")) != nil, "int->interface/refused")
+	case 23:
+		var d complex64
+		sym.Assert(ConvertFrom(&d, math.Float32frombits(sym.F32("x"))) != nil, "float->complex/refused")
+	case 24:
+		type src struct{ V []int32 }
+		type dst struct{ V [1]int32 }
+		var d dst
+		sym.Assert(ConvertFrom(&d, src{V: []int32{sym.I32("x")}}) != nil, "struct-member slice->array/refused")
+	case 25:
+		var d []interface{}
+		sym.Assert(ConvertFrom(&d, []int32{sym.I32("x")}) != nil, "list-element int->interface/refused")
+	case 26:
+		var d map[string]uintptr
+		sym.Assert(ConvertFrom(&d, map[string]uint32{"k": sym.U32("x")}) != nil, "map-element uint->uintptr/refused")
 	case 19:
 		// the KEY kinds are incompatible (the elements are fine)
 		var d map[int32]int32
